@@ -1229,3 +1229,91 @@ pub fn pay_transport_sessions(bin: &str, seed: u64, slow_secs: &[u64], drops: u6
     let a = acc.into_inner().unwrap();
     E2eResult { coverage: json!({"sessions": items.len(), "classes": a.classes, "samples": a.samples}), violations: a.viol, evals: a.evals, inconclusive: a.inconclusive }
 }
+
+
+/// C01 through the real rpc.rs: payment H1 is waited on with two outgoing parts; the first
+/// settles, lightningd answers the second part's waitsendpay *late* - after the plugin has
+/// settled H1 and while another payment H2 is waiting on its own part. Nothing of H1's late
+/// answer may reach H2: its HTLC stays held (its part is pending) and, when H2's part settles,
+/// is resolved with H2's preimage.
+pub fn late_reply_sessions(bin: &str, seed: u64, sessions: u64) -> E2eResult {
+    let acc = Mutex::new(Acc::new());
+    let next = std::sync::atomic::AtomicU64::new(0);
+    std::thread::scope(|sc| {
+        for _ in 0..sessions.min(6).max(1) {
+            sc.spawn(|| loop {
+                let i = next.fetch_add(1, std::sync::atomic::Ordering::Relaxed);
+                if i >= sessions {
+                    break;
+                }
+                let mut rng = Rng::new(mix(seed, 0x1a7e + i));
+                let height = 5000u32;
+                let mut s = match Session::start(bin, &json!({"trampoline-payment-timeout": 120}), false, height, None) {
+                    Ok((Some(s), _)) => s,
+                    _ => {
+                        acc.lock().unwrap().inconclusive.push("plugin did not start".into());
+                        continue;
+                    }
+                };
+                let inv1 = new_invoice(&mut rng, Some(1_000_000), Hints::None);
+                let inv2 = new_invoice(&mut rng, Some(1_000_000), Hints::None);
+                let (h1, h2) = (hex::encode(inv1.hash), hex::encode(inv2.hash));
+                s.preimages.insert(h1.clone(), inv1.preimage);
+                s.preimages.insert(h2.clone(), inv2.preimage);
+                s.hashes = vec![h1.clone(), h2.clone()];
+                s.stuck.push((h1.clone(), "two-parts"));
+                s.stuck.push((h2.clone(), "waitsendpay"));
+                // variants: how many other calls happen between H1's settlement and H2's wait
+                let idle_calls = i % 3;
+                s.send_doc(&hook("x1", tramp_request(&inv1, 1, 1_005_000, 1_005_000, height + 1100, height)), 0);
+                let w1 = s.wait_or_ping(|s| s.reply("x1").is_some(), Duration::from_secs(15));
+                let k1 = s.reply("x1").and_then(result_of);
+                let ok1 = matches!(&k1, Some((k, res)) if k == "resolve" && res["payment_key"].as_str() == Some(hex::encode(inv1.preimage).as_str()));
+                if w1 != Wait::Done || !ok1 || s.late.is_empty() {
+                    let mut g = acc.lock().unwrap();
+                    if w1 == Wait::Done && !ok1 {
+                        g.v("R01a|e2e-first-payment-not-settled-with-its-preimage", format!("H1 answered {:?}", s.reply("x1").map(|r| r["result"].to_string())));
+                    } else {
+                        g.inconclusive.push(format!("late-reply session did not reach its starting point ({w1:?}, late calls {})", s.late.len()));
+                    }
+                    drop(g);
+                    s.finish();
+                    continue;
+                }
+                for k in 0..idle_calls {
+                    // unrelated traffic: plain forwards (no RPC) and a block notification
+                    s.send_doc(&hook(&format!("f{k}"), forward_request(900 + k, "")), 0);
+                }
+                s.send_doc(&hook("x2", tramp_request(&inv2, 2, 1_005_000, 1_005_000, height + 1100, height)), 0);
+                // H2's lifecycle reaches its waitsendpay (held by lightningd)
+                let reached = s.pump_until(|s| !s.held.is_empty() || s.reply("x2").is_some() || s.out_eof, Duration::from_secs(15));
+                let late_n = s.late.len();
+                if reached && s.reply("x2").is_none() {
+                    s.answer_late();
+                    s.pump_for(Duration::from_millis(1500));
+                }
+                let mut g = acc.lock().unwrap();
+                g.e("R01a-e2e-late", 1);
+                g.class(format!("late waitsendpay answer of another hash, {idle_calls} unrelated hook calls in between"));
+                match s.reply("x2").and_then(result_of) {
+                    None => {}
+                    Some((k, res)) => {
+                        let key = res["payment_key"].as_str().unwrap_or("").to_string();
+                        if k == "resolve" && key != hex::encode(inv2.preimage) {
+                            g.v("R01a|e2e-settled-with-another-payments-answer", format!("HTLC of {h2} resolved with {key} (H1's preimage is {}) after lightningd answered a waitsendpay of {h1} late; H2's own part is still pending", hex::encode(inv1.preimage)));
+                        } else {
+                            g.v("R02|e2e-answered-while-part-pending-after-late-reply", format!("HTLC of {h2} answered {k} while its part is pending"));
+                        }
+                    }
+                }
+                if g.samples.len() < 2 {
+                    g.samples.push(json!({"late_calls_answered": late_n, "h2_answer_after_late_reply": s.reply("x2").map(|r| r["result"].clone()), "h2_reached_waitsendpay": reached}));
+                }
+                drop(g);
+                s.finish();
+            });
+        }
+    });
+    let a = acc.into_inner().unwrap();
+    E2eResult { coverage: json!({"sessions": sessions, "classes": a.classes, "samples": a.samples}), violations: a.viol, evals: a.evals, inconclusive: a.inconclusive }
+}
